@@ -3,6 +3,7 @@ module verifharness
 go 1.21
 
 require (
+	github.com/moby/patternmatcher v0.5.0
 	github.com/opencontainers/go-digest v1.0.0
 	github.com/tonistiigi/fsutil v0.0.0
 	golang.org/x/sys v0.11.0
@@ -11,7 +12,6 @@ require (
 
 require (
 	github.com/containerd/continuity v0.4.1 // indirect
-	github.com/moby/patternmatcher v0.5.0 // indirect
 	github.com/pkg/errors v0.9.1 // indirect
 	github.com/planetscale/vtprotobuf v0.6.0 // indirect
 	golang.org/x/sync v0.1.0 // indirect
